@@ -606,6 +606,18 @@ pub fn run(mut rep: Report) -> i32 {
             }
         }
     }
+    {
+        let mut scratch = Report::new(&rep.args, "model_checking");
+        mv.confirm(&mut rep, |rp| match Case::from_json(rp) {
+            Some(case) => {
+                let r = exec_case(&case);
+                let mut m = MinV::new();
+                judge(&mut scratch, &mut m, &r);
+                m.minimal_cases().into_iter().map(|(k, _)| k).collect()
+            }
+            None => vec![],
+        });
+    }
     Ctx::drain_pool();
     mv.flush(&mut rep);
     rep.set("cases_per_level", json!(by_level));
